@@ -11,7 +11,7 @@ import storegen
 from checks import storecheck as sc
 
 LEVEL = "model_checking"
-CLAUSES = {"C12once", "C12exact", "C12pv"}
+CLAUSES = {"C12once", "C12exact", "C12pv", "C12completes"}
 FLAGS = ((1, 0), (1, 1), (0, 0), (0, 1))
 
 
@@ -26,7 +26,7 @@ def b3_configs(tier):
 
 def run(chk, tier, seed):
     m = sc.b3(chk, b3_configs(tier))
-    k = 120 if tier == "quick" else 1200
+    k = 80 if tier == "quick" else 800
     scns = storegen.forest_scenarios(k, seed, ug=False, tag="c12a", maxtrees=6) + \
         storegen.forest_scenarios(k, seed, ug=True, tag="c12b", maxtrees=6) + storegen.small_forests_exhaustive(2)
     st = {}
@@ -36,7 +36,7 @@ def run(chk, tier, seed):
            "transitions": m["transitions"] + st.get("conf_generated", 0) + st.get("obs_generated", 0),
            "traces_validated_against_impl": n, "evaluations": n, "distinct_nontrivial": nontriv,
            "rule": "seeded forests of 1-6 traces over two workflow names (spans of a trace may carry another name before "
-                   "cleaning), interleaved ingestion, batch sizes {1,2,3,50}, without and with the unique-graph filter; "
+                   "cleaning), ingested trace by trace / interleaved / in any order / children first, batch sizes {1..7,50}, without and with the unique-graph filter; "
                    "non-trivial = store with at least two traces",
            "model_runs": m["runs"], "model_drift_executions": ndrift, "conformance_action_counts": st.get("actions", {}),
            "exhaustive": False}
